@@ -206,9 +206,108 @@ def _subst(terms, cand):
     return [z3.substitute(t, *pairs) for t in terms]
 
 
+def _has_quant(t):
+    seen = set()
+    stack = [t]
+    while stack:
+        x = stack.pop()
+        if z3.is_quantifier(x):
+            return True
+        i = x.get_id()
+        if i in seen:
+            continue
+        seen.add(i)
+        stack.extend(x.children())
+    return False
+
+
+_sk = [0]
+
+
+def skolemize_goal(goal):
+    """forall x. body  (as a goal)  ->  body[x := fresh constants]"""
+    consts = []
+    while z3.is_quantifier(goal) and goal.is_forall():
+        n = goal.num_vars()
+        fresh = []
+        for i in range(n):
+            _sk[0] += 1
+            fresh.append(z3.Const(f"sk!{goal.var_name(i)}!{_sk[0]}", goal.var_sort(i)))
+        consts.extend(fresh)
+        goal = z3.substitute_vars(goal.body(), *reversed(fresh))
+    if z3.is_implies(goal) and z3.is_quantifier(goal.arg(1)) and goal.arg(1).is_forall():
+        g2, c2 = skolemize_goal(goal.arg(1))
+        return z3.Implies(goal.arg(0), g2), consts + c2
+    if z3.is_and(goal):
+        parts = []
+        for ch in goal.children():
+            g2, c2 = skolemize_goal(ch)
+            parts.append(g2)
+            consts.extend(c2)
+        return z3.And(*parts), consts
+    return goal, consts
+
+
+def _index_terms(terms, limit=8):
+    """Int-sorted ground terms that occur as arguments of uninterpreted functions, plus Int constants"""
+    out = {}
+    seen = set()
+    stack = list(terms)
+    while stack:
+        x = stack.pop()
+        i = x.get_id()
+        if i in seen:
+            continue
+        seen.add(i)
+        if z3.is_quantifier(x):
+            continue
+        if z3.is_app(x):
+            d = x.decl()
+            if d.kind() == z3.Z3_OP_UNINTERPRETED:
+                if x.num_args() == 0 and x.sort() == z3.IntSort():
+                    out.setdefault(x.get_id(), x)
+                for a in x.children():
+                    if a.sort() == z3.IntSort() and not z3.is_var(a):
+                        out.setdefault(a.get_id(), a)
+            stack.extend(x.children())
+    return list(out.values())
+
+
+def instantiate(hyps, goal, max_inst=600):
+    """replace every top-level universally quantified hypothesis by its instances over the index terms of the goal
+    (sound for proving; a model of the result is only a *candidate* counterexample)"""
+    import itertools as _it
+    goal2, sk = skolemize_goal(goal)
+    qf = [h for h in hyps if not _has_quant(h)]
+    qs = [h for h in hyps if z3.is_quantifier(h) and h.is_forall()]
+    cands = _index_terms([goal2]) + list(c for c in sk if c.sort() == z3.IntSort())
+    # de-duplicate, prefer small terms
+    uniq = {}
+    for c in cands:
+        uniq.setdefault(c.get_id(), c)
+    cands = sorted(uniq.values(), key=lambda t: len(t.sexpr()))[:8]
+    insts = []
+    for q in qs:
+        n = q.num_vars()
+        if any(q.var_sort(i) != z3.IntSort() for i in range(n)):
+            continue
+        combos = list(_it.product(cands, repeat=n))
+        if len(combos) > max_inst:
+            combos = combos[:max_inst]
+        for combo in combos:
+            insts.append(z3.substitute_vars(q.body(), *reversed(combo)))
+    return qf + insts, goal2
+
+
 def prepare_staged(hyps, opt, goal, cands=()):
     """SMT-LIB texts for every stage, generated in the calling thread (the z3 API is not thread-safe)"""
     texts = {"all": to_smt2(hyps, goal)}
+    if any(_has_quant(h) for h in list(hyps) + list(opt or [])) or _has_quant(goal):
+        try:
+            ih, ig = instantiate(list(hyps) + list(opt or []), goal)
+            texts["inst"] = to_smt2(ih, ig)
+        except z3.Z3Exception:
+            pass
     for ci, cand in enumerate(cands):
         allh = _subst(list(hyps) + list(opt or []), cand)
         texts[f"cand{ci}"] = (to_smt2(allh, _subst([goal], cand)[0]), cand)
@@ -257,6 +356,18 @@ def _discharge_staged(texts, timeout_s):
                 r2["time"] = total
                 r2["stage"] = k
                 return r2
+        if "inst" in texts:
+            r4 = run_one(texts["inst"], timeout_s, use_cvc5=False)
+            total += r4["time"]
+            if r4["verdict"] == "unsat":
+                r4["time"] = total
+                r4["stage"] = "inst"
+                return r4
+            if r4["verdict"] == "sat":
+                r4["time"] = total
+                r4["stage"] = "inst"
+                r4["candidate_only"] = True      # model of a weakened query: must be confirmed natively
+                return r4
         # bounded counterexample search: instantiate hard (nonlinear) inputs with concrete candidates; a model of
         # the instantiated query is a model of the original one
         for k in sorted(t for t in texts if t.startswith("cand")):
